@@ -34,6 +34,7 @@ prune slice keeps its guard; C18.5 download column and filter are inserted
 columns, whatever the placeholder style. Fourth round: C18.2 the daemon drives
 each archiver with its own options; C18.5 the snapshot reader searches every
 snapshot.
+Sweep: C18.5 the reader walks a whole batch (loop never cut short), skips an event only when it is older than or equal to the last one seen and hands every other one over; download_batch returns the rows it read.
 Does NOT decide retrievability from the produced snapshot nor every crash cut
 beyond the upload-before-delete ordering.
 """
